@@ -37,7 +37,7 @@ def load_fluid_with_ufs():
     return mod, gas, ufs
 
 
-def replay_table_pp(model, n=4, descending=False):
+def replay_table_pp(model, n=4, descending=False, series=False):
     import numpy as np
     from bluebonnet.fluids import fluid as rf
     names = [f"p{k}" for k in range(n)] + [f"mu{k}" for k in range(n)] + [f"z{k}" for k in range(n)]
@@ -49,7 +49,17 @@ def replay_table_pp(model, n=4, descending=False):
     z = np.array([m[f"z{k}"] for k in range(n)])
     if descending:
         p, mu, z = p[::-1].copy(), mu[::-1].copy(), z[::-1].copy()     # the same table listed from high pressure to low
-    got = np.asarray(rf.pseudopressure(p, mu, z), float)
+    if series:
+        # the three columns of a table (pandas Series with the default labels), as df["pressure"], df["viscosity"], df["z-factor"]
+        import pandas as pd
+        try:
+            got = np.asarray(rf.pseudopressure(pd.Series(p), pd.Series(mu), pd.Series(z)), float)
+        except Exception as ex:  # noqa: BLE001
+            return True, {"what": f"fluids.pseudopressure raised {ex!r} for columns passed as pandas Series", "inputs": m}
+        if got.shape != p.shape or not np.all(np.isfinite(got)):
+            return True, {"what": f"fluids.pseudopressure on pandas Series columns = {got.tolist()} for {len(p)} rows", "inputs": m}
+    else:
+        got = np.asarray(rf.pseudopressure(p, mu, z), float)
     y = 2 * p / (mu * z)
     want = np.concatenate([[0.0], np.cumsum(np.diff(p) * (y[:-1] + y[1:]) / 2)])
     order = np.argsort(p)
@@ -150,8 +160,8 @@ def job_hussainy(job):
             job.prove(f"hussainy[{tag}]/reach", pr.pc, expect="sat")
 
 
-def job_transform(job, n, descending=False):
-    if not descending:
+def job_transform(job, n, descending=False, series=False):
+    if not descending and not series:
         SS.selftest(job, job.seed)
     mod, gas, ufs = load_fluid_with_ufs()
     job.encoded(mod, "pseudopressure")
@@ -168,8 +178,21 @@ def job_transform(job, n, descending=False):
         # rows listed from high pressure to low (a depletion table): zero at the first row (the reference), each increment
         # the trapezoid of its own interval, increasing in *pressure*
         ps, mus, zs = ps[::-1], mus[::-1], zs[::-1]
-    rp = (replay_table_pp, {"n": n, "descending": descending})
-    for k, pr in enumerate(paths(job, lambda: mod.pseudopressure(SymArray(ps), SymArray(mus), SymArray(zs)), dom)):
+    rp = (replay_table_pp, {"n": n, "descending": descending, "series": series})
+
+    def mk(vals):
+        if series:
+            from ..shims.pd_shim import SymSeries
+            return SymSeries(list(vals), "f8", list(range(n)))      # a table column: default labels 0..n-1
+        return SymArray(vals)
+    stag = ",columns passed as pandas Series" if series else ""
+    for k, pr in enumerate(paths(job, lambda: mod.pseudopressure(mk(ps), mk(mus), mk(zs)), dom, catch=(Exception,))):
+        if pr.exc is not None:
+            job.prove(f"transform[{n}{stag}]/raises {type(pr.exc).__name__}[path{k}]", pr.pc, bound=f"{n} rows", replay=rp, note=repr(pr.exc)[:100])
+            continue
+        if not isinstance(pr.value, SymArray) or len(pr.value.d) != n or any(getattr(x, "__sx_nan__", False) for x in pr.value.d):
+            job.prove(f"transform[{n}{stag}]/one finite value per row[path{k}]", pr.pc, bound=f"{n} rows", replay=rp)
+            continue
         got = pr.value.d
         y = [2 * ps[j] / (mus[j] * zs[j]) for j in range(n)]
         want = [Q(0)]
@@ -299,7 +322,7 @@ FALLBACK = [(replay_builder, {}), (replay_builder, {"dry": "wet gas"}), (replay_
 
 
 def jobs(tier):
-    out = [("hussainy", job_hussainy), ("transform3", lambda j: job_transform(j, 3)), ("transform3-descending", lambda j: job_transform(j, 3, True)), ("builder", lambda j: job_builder(j, 45)), ("builder-int-maximum-pressure", lambda j: job_builder(j, 45, True))]
+    out = [("hussainy", job_hussainy), ("transform3", lambda j: job_transform(j, 3)), ("transform3-descending", lambda j: job_transform(j, 3, True)), ("transform3-series-columns", lambda j: job_transform(j, 3, False, True)), ("builder", lambda j: job_builder(j, 45)), ("builder-int-maximum-pressure", lambda j: job_builder(j, 45, True))]
     if tier != "quick":
         out += [("transform4", lambda j: job_transform(j, 4)), ("transform5", lambda j: job_transform(j, 5)),
                 ("builder75", lambda j: job_builder(j, 75)), ("transform8", lambda j: job_transform(j, 8)),
